@@ -50,6 +50,30 @@ structure AEAD where
 def encryptWith (A : AEAD) (nonce key msg : Bytes) : Bytes :=
   nonce ++ A.sealF key nonce msg
 
+/-- One `CryptoKey.Encrypt` call: the nonce it read from `prng`, the key, the plaintext. -/
+structure EncCall where
+  nonce : Bytes
+  key : Bytes
+  msg : Bytes
+
+/-- The ciphertexts of a list of `Encrypt` calls. `Encrypt` touches no shared state besides `prng` (the nonce is a
+local array, the key is only read), so whatever the goroutines and their schedule, the results of `n` calls are a
+function of the `n` (nonce, key, plaintext) triples: the list is the calls in ANY completion order. -/
+def encryptCalls (A : AEAD) (calls : List EncCall) : List Bytes :=
+  calls.map fun c => encryptWith A c.nonce c.key c.msg
+
+/-- `n` (possibly concurrent) encryptions of ONE plaintext under ONE key, call `i` having drawn `nonces[i]`
+(engine op `encpar`). -/
+def encryptMany (A : AEAD) (key msg : Bytes) (nonces : List Bytes) : List Bytes :=
+  encryptCalls A (nonces.map fun n => ⟨n, key, msg⟩)
+
+/-- A schedule of several goroutines: `Interleave threads out` — `out` is obtained by repeatedly taking the next
+element of SOME thread (every interleaving that respects each goroutine's program order). -/
+inductive Interleave {α : Type} : List (List α) → List α → Prop
+  | done (threads : List (List α)) : (∀ t ∈ threads, t = []) → Interleave threads []
+  | step (threads : List (List α)) (i : Nat) (x : α) (tl rest : List α) :
+      threads[i]? = some (x :: tl) → Interleave (threads.set i tl) rest → Interleave threads (x :: rest)
+
 /-- `CryptoKey.Decrypt`: `len(in) < NonceSize` ⇒ ErrMalformed; nonce = first 24 bytes; `!ok` ⇒ ErrDecryptFailed. -/
 def decrypt (A : AEAD) (key inp : Bytes) : Except Err Bytes :=
   if inp.length < nonceSize then .error .malformed
